@@ -136,6 +136,9 @@ pub struct Step {
     pub n: u64,
     pub j: u64,
     pub h: u64,
+    /// 0: the ids name the object; 1 / 2: the object of that kind with the smallest / largest key that the
+    /// acting port currently owns (concurrent programs: the live objects depend on the schedule)
+    pub sel: u64,
 }
 
 impl Step {
@@ -148,13 +151,14 @@ impl Step {
             n: u("n"),
             j: u("j"),
             h: u("h"),
+            sel: u("sel"),
         }
     }
     pub fn new(a: &str, c: u64, s: u64, n: u64, j: u64, h: u64) -> Step {
-        Step { a: a.to_string(), c, s, n, j, h }
+        Step { a: a.to_string(), c, s, n, j, h, sel: 0 }
     }
     pub fn to_json(&self) -> Value {
-        json!({"a": self.a, "c": self.c, "s": self.s, "n": self.n, "j": self.j, "h": self.h})
+        json!({"a": self.a, "c": self.c, "s": self.s, "n": self.n, "j": self.j, "h": self.h, "sel": self.sel})
     }
 }
 
@@ -181,11 +185,15 @@ pub struct Rec {
 }
 
 impl Rec {
-    fn of(st: &Step) -> Rec {
+    pub fn of(st: &Step) -> Rec {
         Rec { a: st.a.clone(), c: st.c, s: st.s, n: st.n, j: st.j, h: st.h, ch: -1, rid: -1, ok: 1, ..Default::default() }
     }
     pub fn to_json(&self) -> Value {
-        json!({"k": "op", "a": self.a, "c": self.c, "s": self.s, "n": self.n, "j": self.j, "h": self.h,
+        self.to_json_kind("op", 0)
+    }
+    /// `op` (sequential), `call` / `ret` (concurrent, t = thread)
+    pub fn to_json_kind(&self, kind: &str, t: u64) -> Value {
+        json!({"k": kind, "t": t, "d": 0, "a": self.a, "c": self.c, "s": self.s, "n": self.n, "j": self.j, "h": self.h,
                "r": self.r, "ch": self.ch, "x": self.x, "rid": self.rid, "pc": self.pc, "pn": self.pn,
                "ps": self.ps, "pj": self.pj, "ok": self.ok, "v": self.v, "bad": self.bad})
     }
@@ -220,28 +228,56 @@ struct HeldResp<S: Service> {
     seen: Msg,
 }
 
-pub struct World<S: Service> {
-    pub cfg: Cfg,
-    _node: Node<S>,
-    svc: RrFactory<S, Msg, (), Msg, ()>,
-    clients: BTreeMap<u64, Cl<S>>,
-    servers: BTreeMap<u64, Sv<S>>,
-    used_c: BTreeMap<u64, bool>,
-    used_s: BTreeMap<u64, bool>,
-    reqloans: BTreeMap<(u64, u64), RqM<S>>,
-    pend: BTreeMap<(u64, u64), Pr<S>>,
-    held: BTreeMap<u64, HeldResp<S>>,
-    areq: BTreeMap<(u64, u64, u64), Ar<S>>,
-    rloans: BTreeMap<(u64, u64, u64, u64), RsM<S>>,
-    next_n: BTreeMap<u64, u64>,
-    next_j: BTreeMap<(u64, u64, u64), u64>,
-    next_h: u64,
-    req_addr: BTreeMap<u64, BTreeMap<usize, u64>>,
-    resp_addr: BTreeMap<u64, BTreeMap<usize, u64>>,
-    pub nreq: u64,
-    pub nresp: u64,
-    pub counts: BTreeMap<String, u64>,
-    pub poisoned: bool,
+/// which thread of a concurrent execution owns an action (sequential runs use both sides)
+#[derive(Clone, Copy, PartialEq, Eq, Debug)]
+pub enum Side {
+    Client,
+    Server,
+    None,
+}
+
+pub fn side_of(a: &str) -> Side {
+    match a {
+        "CreateClient" | "DropClient" | "UpdateClient" | "LoanRequest" | "SendRequest" | "SendCopy" | "DropRequest"
+        | "DropPending" | "ReceiveResponse" | "DropResponse" | "IsConnectedP" | "HasResponse" | "DisconnectHint"
+        | "ProbeRequestLoans" => Side::Client,
+        "CreateServer" | "DropServer" | "UpdateServer" | "ReceiveRequest" | "HasRequests" | "LoanResponse"
+        | "LoanResponseAny" | "SendResponse" | "SendCopyResponse" | "DropResponseLoan" | "DropActive" | "IsConnectedA"
+        | "HasDisconnectHint" | "ProbeResponseLoans" => Side::Server,
+        _ => Side::None,
+    }
+}
+
+/// Is an address backed by a mapping of this process?  A connection that is discarded while chunks of it
+/// are still borrowed unmaps the data segment: the canary check must report that instead of dying of it.
+pub struct Maps(Vec<(usize, usize)>);
+
+impl Maps {
+    pub fn read() -> Maps {
+        let mut v: Vec<(usize, usize)> = Vec::new();
+        if let Ok(s) = std::fs::read_to_string("/proc/self/maps") {
+            for line in s.lines() {
+                let Some(range) = line.split_whitespace().next() else { continue };
+                let Some((a, b)) = range.split_once('-') else { continue };
+                if let (Ok(a), Ok(b)) = (usize::from_str_radix(a, 16), usize::from_str_radix(b, 16)) {
+                    // adjacent mappings are merged (an object may span two of them)
+                    match v.last_mut() {
+                        Some(last) if last.1 == a => last.1 = b,
+                        _ => v.push((a, b)),
+                    }
+                }
+            }
+        }
+        Maps(v)
+    }
+    pub fn covers<T>(&self, p: *const T) -> bool {
+        let (a, b) = (p as usize, p as usize + core::mem::size_of::<T>());
+        self.0.is_empty() || self.0.iter().any(|(s, e)| *s <= a && b <= *e)
+    }
+}
+
+fn intact_at(maps: &Maps, p: *const Msg, want: &Msg) -> bool {
+    maps.covers(p) && unsafe { *p == *want }
 }
 
 fn idx_of(map: &mut BTreeMap<usize, u64>, addr: usize) -> u64 {
@@ -249,220 +285,160 @@ fn idx_of(map: &mut BTreeMap<usize, u64>, addr: usize) -> u64 {
     *map.entry(addr).or_insert(next)
 }
 
-impl<S: Service> World<S> {
-    pub fn new(cfg: &Cfg, config: &Config, service_name: &str) -> Result<World<S>, String> {
-        let node = NodeBuilder::new().config(config).create::<S>().map_err(|e| format!("node: {e:?}"))?;
-        let name = ServiceName::new(service_name).map_err(|e| format!("name: {e:?}"))?;
-        let svc = node
-            .service_builder(&name)
-            .request_response::<Msg, Msg>()
-            .max_active_requests_per_client(cfg.ma as usize)
-            .max_loaned_requests(cfg.ml as usize)
-            .max_response_buffer_size(cfg.rb as usize)
-            .max_borrowed_responses_per_pending_response(cfg.mb as usize)
-            .enable_safe_overflow_for_requests(cfg.oq)
-            .enable_safe_overflow_for_responses(cfg.op)
-            .enable_fire_and_forget_requests(cfg.ff)
-            .max_servers(cfg.msv as usize)
-            .max_clients(cfg.mcl as usize)
-            .max_nodes(2)
-            .create()
-            .map_err(|e| format!("service: {e:?}"))?;
-        let mut w = World {
+fn panic_msg(p: Box<dyn std::any::Any + Send>) -> String {
+    p.downcast_ref::<String>()
+        .cloned()
+        .or_else(|| p.downcast_ref::<&str>().map(|s| s.to_string()))
+        .unwrap_or_else(|| "?".into())
+}
+
+type Factory<S> = RrFactory<S, Msg, (), Msg, ()>;
+
+/// everything the client thread of a concurrent execution owns
+pub struct ClientSide<S: Service> {
+    pub cfg: Cfg,
+    clients: BTreeMap<u64, Cl<S>>,
+    used_c: BTreeMap<u64, bool>,
+    reqloans: BTreeMap<(u64, u64), RqM<S>>,
+    pend: BTreeMap<(u64, u64), Pr<S>>,
+    held: BTreeMap<u64, HeldResp<S>>,
+    next_n: BTreeMap<u64, u64>,
+    next_h: u64,
+    req_addr: BTreeMap<u64, BTreeMap<usize, u64>>,
+    pub counts: BTreeMap<String, u64>,
+    pub poisoned: bool,
+}
+
+/// everything the server thread of a concurrent execution owns
+pub struct ServerSide<S: Service> {
+    pub cfg: Cfg,
+    servers: BTreeMap<u64, Sv<S>>,
+    used_s: BTreeMap<u64, bool>,
+    areq: BTreeMap<(u64, u64, u64), Ar<S>>,
+    rloans: BTreeMap<(u64, u64, u64, u64), RsM<S>>,
+    next_j: BTreeMap<(u64, u64, u64), u64>,
+    resp_addr: BTreeMap<u64, BTreeMap<usize, u64>>,
+    pub counts: BTreeMap<String, u64>,
+    pub poisoned: bool,
+}
+
+pub struct World<S: Service> {
+    pub cfg: Cfg,
+    _node: Node<S>,
+    svc: Factory<S>,
+    pub cs: ClientSide<S>,
+    pub ss: ServerSide<S>,
+    pub nreq: u64,
+    pub nresp: u64,
+}
+
+fn make_client<S: Service>(svc: &Factory<S>) -> Result<Cl<S>, String> {
+    svc.client_builder()
+        .backpressure_strategy(BackpressureStrategy::DiscardData)
+        .create()
+        .map_err(|e| innermost(&e))
+}
+
+fn make_server<S: Service>(svc: &Factory<S>, cfg: &Cfg) -> Result<Sv<S>, String> {
+    svc.server_builder()
+        .backpressure_strategy(BackpressureStrategy::DiscardData)
+        .max_loaned_responses_per_request(cfg.mlr as usize)
+        .create()
+        .map_err(|e| innermost(&e))
+}
+
+// =================================================================================================
+// client side
+
+impl<S: Service> ClientSide<S> {
+    fn new(cfg: &Cfg) -> Self {
+        ClientSide {
             cfg: cfg.clone(),
-            _node: node,
-            svc,
             clients: BTreeMap::new(),
-            servers: BTreeMap::new(),
             used_c: BTreeMap::new(),
-            used_s: BTreeMap::new(),
             reqloans: BTreeMap::new(),
             pend: BTreeMap::new(),
             held: BTreeMap::new(),
-            areq: BTreeMap::new(),
-            rloans: BTreeMap::new(),
             next_n: BTreeMap::new(),
-            next_j: BTreeMap::new(),
             next_h: 1,
             req_addr: BTreeMap::new(),
-            resp_addr: BTreeMap::new(),
-            nreq: 0,
-            nresp: 0,
             counts: BTreeMap::new(),
             poisoned: false,
-        };
-        // parameter extraction (DESIGN.md 3.3): number of chunks of a client / server data segment as
-        // published by the running code in the dynamic config
-        {
-            let c = w.make_client().map_err(|e| format!("probe client: {e}"))?;
-            let s = w.make_server().map_err(|e| format!("probe server: {e}"))?;
-            let (cid, sid) = (c.id(), s.id());
-            let (mut nreq, mut nresp) = (0u64, 0u64);
-            w.svc.dynamic_config().list_clients(|d| {
-                if d.client_id == cid {
-                    nreq = d.number_of_requests as u64;
-                }
-                CallbackProgression::Continue
-            });
-            w.svc.dynamic_config().list_servers(|d| {
-                if d.server_id == sid {
-                    nresp = d.number_of_responses as u64;
-                }
-                CallbackProgression::Continue
-            });
-            w.nreq = nreq;
-            w.nresp = nresp;
         }
-        Ok(w)
     }
 
-    fn make_client(&self) -> Result<Cl<S>, String> {
-        self.svc
-            .client_builder()
-            .backpressure_strategy(BackpressureStrategy::DiscardData)
-            .create()
-            .map_err(|e| innermost(&e))
-    }
-
-    fn make_server(&self) -> Result<Sv<S>, String> {
-        self.svc
-            .server_builder()
-            .backpressure_strategy(BackpressureStrategy::DiscardData)
-            .max_loaned_responses_per_request(self.cfg.mlr as usize)
-            .create()
-            .map_err(|e| innermost(&e))
-    }
-
-    /// number of held objects whose payload does not show their canary any more
-    fn count_bad(&self) -> u64 {
+    /// number of held objects whose payload does not show their canary any more (or is not mapped any more)
+    pub fn count_bad(&self) -> u64 {
+        if self.reqloans.is_empty() && self.pend.is_empty() && self.held.is_empty() {
+            return 0;
+        }
+        let maps = Maps::read();
         let mut bad = 0;
         for ((c, n), r) in &self.reqloans {
-            if *r.payload() != Msg::request(*c, *n) {
+            if !intact_at(&maps, r.payload() as *const Msg, &Msg::request(*c, *n)) {
                 bad += 1;
             }
         }
         for ((c, n), p) in &self.pend {
-            if *p.payload() != Msg::request(*c, *n) {
+            if !intact_at(&maps, p.payload() as *const Msg, &Msg::request(*c, *n)) {
                 bad += 1;
             }
         }
         for h in self.held.values() {
-            if *h.resp.payload() != h.seen {
-                bad += 1;
-            }
-        }
-        for ((_s, c, n), a) in &self.areq {
-            if *a.payload() != Msg::request(*c, *n) {
-                bad += 1;
-            }
-        }
-        for ((s, c, n, j), l) in &self.rloans {
-            if *l.payload() != Msg::response(*c, *n, *s, *j) {
+            if !intact_at(&maps, h.resp.payload() as *const Msg, &h.seen) {
                 bad += 1;
             }
         }
         bad
     }
 
-    // ---- liveness queries used by the generator -------------------------------------------------
-    pub fn live_clients(&self) -> Vec<u64> {
-        self.clients.keys().copied().collect()
-    }
-    pub fn live_servers(&self) -> Vec<u64> {
-        self.servers.keys().copied().collect()
-    }
-    pub fn free_client_slots(&self) -> Vec<u64> {
-        (1..=self.cfg.nc).filter(|c| !self.used_c.contains_key(c)).collect()
-    }
-    pub fn free_server_slots(&self) -> Vec<u64> {
-        (1..=self.cfg.ns).filter(|s| !self.used_s.contains_key(s)).collect()
-    }
-    pub fn reqloan_keys(&self) -> Vec<(u64, u64)> {
-        self.reqloans.keys().copied().collect()
-    }
-    pub fn pend_keys(&self) -> Vec<(u64, u64)> {
-        self.pend.keys().copied().collect()
-    }
-    pub fn held_keys(&self) -> Vec<(u64, u64)> {
-        self.held.iter().map(|(h, r)| (*h, r.c)).collect()
-    }
-    pub fn areq_keys(&self) -> Vec<(u64, u64, u64)> {
-        self.areq.keys().copied().collect()
-    }
-    pub fn rloan_keys(&self) -> Vec<(u64, u64, u64, u64)> {
-        self.rloans.keys().copied().collect()
-    }
-    pub fn client_is_idle(&self, c: u64) -> bool {
+    pub fn is_idle(&self, c: u64) -> bool {
         !self.reqloans.keys().any(|k| k.0 == c) && !self.pend.keys().any(|k| k.0 == c) && !self.held.values().any(|h| h.c == c)
     }
-    pub fn server_is_idle(&self, s: u64) -> bool {
-        !self.areq.keys().any(|k| k.0 == s) && !self.rloans.keys().any(|k| k.0 == s)
-    }
-    pub fn areq_has_loans(&self, k: (u64, u64, u64)) -> bool {
-        self.rloans.keys().any(|l| (l.0, l.1, l.2) == k)
+
+    /// replaces a selector by the ids of the object it selects; false: no such object
+    fn resolve(&self, st: &mut Step) -> bool {
+        if st.sel == 0 {
+            return true;
+        }
+        let first = st.sel == 1;
+        let pick2 = |mut v: Vec<(u64, u64)>| -> Option<(u64, u64)> {
+            v.sort();
+            if first { v.first().copied() } else { v.last().copied() }
+        };
+        match st.a.as_str() {
+            "SendRequest" | "DropRequest" => match pick2(self.reqloans.keys().filter(|k| k.0 == st.c).copied().collect()) {
+                Some((_, n)) => st.n = n,
+                None => return false,
+            },
+            "DropPending" | "ReceiveResponse" | "IsConnectedP" | "HasResponse" | "DisconnectHint" => {
+                match pick2(self.pend.keys().filter(|k| k.0 == st.c).copied().collect()) {
+                    Some((_, n)) => st.n = n,
+                    None => return false,
+                }
+            }
+            "DropResponse" => match pick2(self.held.iter().filter(|(_, r)| r.c == st.c).map(|(h, _)| (*h, 0)).collect()) {
+                Some((h, _)) => st.h = h,
+                None => return false,
+            },
+            _ => {}
+        }
+        st.sel = 0;
+        true
     }
 
-    // ---- execution ------------------------------------------------------------------------------
-    /// Executes one step; returns the record (a = "Skip" if the step refers to objects that do not exist).
-    pub fn exec(&mut self, st: &Step) -> Rec {
-        let mut rec = Rec::of(st);
-        if self.poisoned {
-            rec.r = "skipped-after-panic".into();
-            rec.a = "Skip".into();
-            return rec;
-        }
-        let res = catch_unwind(AssertUnwindSafe(|| self.exec_inner(st, &mut rec)));
-        match res {
-            Ok(true) => {}
-            Ok(false) => {
-                rec.a = "Skip".into();
-                rec.r = format!("not-applicable:{}", st.a);
-            }
-            Err(p) => {
-                let msg = p
-                    .downcast_ref::<String>()
-                    .cloned()
-                    .or_else(|| p.downcast_ref::<&str>().map(|s| s.to_string()))
-                    .unwrap_or_else(|| "?".into());
-                rec.r = "PANIC".into();
-                rec.ok = 0;
-                eprintln!("panic in step {st:?}: {msg}");
-                self.poisoned = true;
-            }
-        }
-        if !self.poisoned {
-            rec.bad = catch_unwind(AssertUnwindSafe(|| self.count_bad())).unwrap_or(99);
-        }
-        *self.counts.entry(format!("{}:{}", rec.a, rec.r)).or_insert(0) += 1;
-        rec
-    }
-
-    fn exec_inner(&mut self, st: &Step, rec: &mut Rec) -> bool {
-        if st.a == "LoanResponseAny" {
-            // loan through the active request of server s that has the fewest outstanding loans
-            let pick = self
-                .areq
-                .keys()
-                .filter(|k| k.0 == st.s)
-                .min_by_key(|k| self.rloans.keys().filter(|l| (l.0, l.1, l.2) == **k).count())
-                .copied();
-            let Some((s, c, n)) = pick else { return false };
-            let st2 = Step::new("LoanResponse", c, s, n, 0, 0);
-            rec.a = st2.a.clone();
-            rec.c = c;
-            rec.n = n;
-            return self.exec_inner(&st2, rec);
-        }
+    fn exec_inner(&mut self, svc: Option<&Factory<S>>, st: &Step, rec: &mut Rec) -> bool {
         match st.a.as_str() {
             "CreateClient" => {
+                let Some(svc) = svc else { return false };
                 if self.used_c.contains_key(&st.c) || st.c == 0 || st.c > self.cfg.nc {
                     return false;
                 }
-                match self.make_client() {
+                match make_client(svc) {
                     Ok(cl) => {
                         let id = cl.id();
                         let mut chunks = 0;
-                        self.svc.dynamic_config().list_clients(|d| {
+                        svc.dynamic_config().list_clients(|d| {
                             if d.client_id == id {
                                 chunks = d.number_of_requests as u64;
                             }
@@ -476,52 +452,16 @@ impl<S: Service> World<S> {
                     Err(e) => rec.r = e,
                 }
             }
-            "CreateServer" => {
-                if self.used_s.contains_key(&st.s) || st.s == 0 || st.s > self.cfg.ns {
-                    return false;
-                }
-                match self.make_server() {
-                    Ok(sv) => {
-                        let id = sv.id();
-                        let mut chunks = 0;
-                        self.svc.dynamic_config().list_servers(|d| {
-                            if d.server_id == id {
-                                chunks = d.number_of_responses as u64;
-                            }
-                            CallbackProgression::Continue
-                        });
-                        rec.v = chunks;
-                        rec.r = "ok".into();
-                        self.used_s.insert(st.s, true);
-                        self.servers.insert(st.s, sv);
-                    }
-                    Err(e) => rec.r = e,
-                }
-            }
             "DropClient" => {
-                if !self.clients.contains_key(&st.c) || !self.client_is_idle(st.c) {
+                if !self.clients.contains_key(&st.c) || !self.is_idle(st.c) {
                     return false;
                 }
                 self.clients.remove(&st.c);
                 rec.r = "ok".into();
             }
-            "DropServer" => {
-                if !self.servers.contains_key(&st.s) || !self.server_is_idle(st.s) {
-                    return false;
-                }
-                self.servers.remove(&st.s);
-                rec.r = "ok".into();
-            }
             "UpdateClient" => {
                 let Some(cl) = self.clients.get(&st.c) else { return false };
                 rec.r = match cl.update_connections() {
-                    Ok(()) => "ok".into(),
-                    Err(e) => innermost(&e),
-                };
-            }
-            "UpdateServer" => {
-                let Some(sv) = self.servers.get(&st.s) else { return false };
-                rec.r = match sv.update_connections() {
                     Ok(()) => "ok".into(),
                     Err(e) => innermost(&e),
                 };
@@ -594,6 +534,13 @@ impl<S: Service> World<S> {
                 let my_rid = parse_field(&format!("{:?}", p.header()), "request_id:");
                 match p.receive() {
                     Ok(Some(resp)) => {
+                        if !Maps::read().covers(resp.payload() as *const Msg) {
+                            // a response that points into memory that is not mapped: keep it, flag it
+                            rec.r = "some".into();
+                            rec.ok = 0;
+                            std::mem::forget(resp);
+                            return true;
+                        }
                         let m = *resp.payload();
                         rec.r = "some".into();
                         rec.pc = m.c;
@@ -663,10 +610,167 @@ impl<S: Service> World<S> {
                 rec.v = got.len() as u64;
                 rec.r = err;
             }
+            _ => return false,
+        }
+        true
+    }
+
+    fn clear(&mut self) {
+        self.held.clear();
+        self.reqloans.clear();
+        self.pend.clear();
+        self.clients.clear();
+    }
+}
+
+// =================================================================================================
+// server side
+
+impl<S: Service> ServerSide<S> {
+    fn new(cfg: &Cfg) -> Self {
+        ServerSide {
+            cfg: cfg.clone(),
+            servers: BTreeMap::new(),
+            used_s: BTreeMap::new(),
+            areq: BTreeMap::new(),
+            rloans: BTreeMap::new(),
+            next_j: BTreeMap::new(),
+            resp_addr: BTreeMap::new(),
+            counts: BTreeMap::new(),
+            poisoned: false,
+        }
+    }
+
+    pub fn count_bad(&self) -> u64 {
+        if self.areq.is_empty() && self.rloans.is_empty() {
+            return 0;
+        }
+        let maps = Maps::read();
+        let mut bad = 0;
+        for ((_s, c, n), a) in &self.areq {
+            if !intact_at(&maps, a.payload() as *const Msg, &Msg::request(*c, *n)) {
+                bad += 1;
+            }
+        }
+        for ((s, c, n, j), l) in &self.rloans {
+            if !intact_at(&maps, l.payload() as *const Msg, &Msg::response(*c, *n, *s, *j)) {
+                bad += 1;
+            }
+        }
+        bad
+    }
+
+    pub fn is_idle(&self, s: u64) -> bool {
+        !self.areq.keys().any(|k| k.0 == s) && !self.rloans.keys().any(|k| k.0 == s)
+    }
+    pub fn areq_has_loans(&self, k: (u64, u64, u64)) -> bool {
+        self.rloans.keys().any(|l| (l.0, l.1, l.2) == k)
+    }
+
+    fn resolve(&self, st: &mut Step) -> bool {
+        if st.sel == 0 {
+            return true;
+        }
+        let first = st.sel == 1;
+        match st.a.as_str() {
+            "LoanResponse" | "SendCopyResponse" | "DropActive" | "IsConnectedA" | "HasDisconnectHint" | "ProbeResponseLoans" => {
+                let mut v: Vec<(u64, u64, u64)> = self
+                    .areq
+                    .keys()
+                    .filter(|k| k.0 == st.s && !(st.a == "DropActive" && self.areq_has_loans(**k)))
+                    .copied()
+                    .collect();
+                v.sort();
+                match if first { v.first() } else { v.last() } {
+                    Some((_, c, n)) => {
+                        st.c = *c;
+                        st.n = *n;
+                    }
+                    None => return false,
+                }
+            }
+            "SendResponse" | "DropResponseLoan" => {
+                let mut v: Vec<(u64, u64, u64, u64)> = self.rloans.keys().filter(|k| k.0 == st.s).copied().collect();
+                v.sort();
+                match if first { v.first() } else { v.last() } {
+                    Some((_, c, n, j)) => {
+                        st.c = *c;
+                        st.n = *n;
+                        st.j = *j;
+                    }
+                    None => return false,
+                }
+            }
+            _ => {}
+        }
+        st.sel = 0;
+        true
+    }
+
+    fn exec_inner(&mut self, svc: Option<&Factory<S>>, st: &Step, rec: &mut Rec) -> bool {
+        if st.a == "LoanResponseAny" {
+            // loan through the active request of server s that has the fewest outstanding loans
+            let pick = self
+                .areq
+                .keys()
+                .filter(|k| k.0 == st.s)
+                .min_by_key(|k| self.rloans.keys().filter(|l| (l.0, l.1, l.2) == **k).count())
+                .copied();
+            let Some((s, c, n)) = pick else { return false };
+            let st2 = Step::new("LoanResponse", c, s, n, 0, 0);
+            rec.a = st2.a.clone();
+            rec.c = c;
+            rec.n = n;
+            return self.exec_inner(svc, &st2, rec);
+        }
+        match st.a.as_str() {
+            "CreateServer" => {
+                let Some(svc) = svc else { return false };
+                if self.used_s.contains_key(&st.s) || st.s == 0 || st.s > self.cfg.ns {
+                    return false;
+                }
+                match make_server(svc, &self.cfg) {
+                    Ok(sv) => {
+                        let id = sv.id();
+                        let mut chunks = 0;
+                        svc.dynamic_config().list_servers(|d| {
+                            if d.server_id == id {
+                                chunks = d.number_of_responses as u64;
+                            }
+                            CallbackProgression::Continue
+                        });
+                        rec.v = chunks;
+                        rec.r = "ok".into();
+                        self.used_s.insert(st.s, true);
+                        self.servers.insert(st.s, sv);
+                    }
+                    Err(e) => rec.r = e,
+                }
+            }
+            "DropServer" => {
+                if !self.servers.contains_key(&st.s) || !self.is_idle(st.s) {
+                    return false;
+                }
+                self.servers.remove(&st.s);
+                rec.r = "ok".into();
+            }
+            "UpdateServer" => {
+                let Some(sv) = self.servers.get(&st.s) else { return false };
+                rec.r = match sv.update_connections() {
+                    Ok(()) => "ok".into(),
+                    Err(e) => innermost(&e),
+                };
+            }
             "ReceiveRequest" => {
                 let Some(sv) = self.servers.get(&st.s) else { return false };
                 match sv.receive() {
                     Ok(Some(ar)) => {
+                        if !Maps::read().covers(ar.payload() as *const Msg) {
+                            rec.r = "some".into();
+                            rec.ok = 0;
+                            std::mem::forget(ar);
+                            return true;
+                        }
                         let m = *ar.payload();
                         let hd = format!("{:?}", ar.header());
                         rec.r = "some".into();
@@ -779,21 +883,199 @@ impl<S: Service> World<S> {
         true
     }
 
+    fn clear_objects(&mut self) {
+        self.rloans.clear();
+        self.areq.clear();
+    }
+}
+
+// =================================================================================================
+// one step on one side (shared by the sequential runs and the threads of a concurrent execution)
+
+macro_rules! side_exec {
+    ($side:ty) => {
+        impl<S: Service> $side {
+            /// Executes one step on this side.  None: the step does not apply (the object does not exist).
+            /// `on_call` is invoked after the selector was resolved, immediately before the real call.
+            pub fn exec_step(&mut self, svc: Option<&Factory<S>>, st: &Step, on_call: &mut dyn FnMut(&Rec)) -> Option<Rec> {
+                let mut st = st.clone();
+                if self.poisoned || !self.resolve(&mut st) {
+                    return None;
+                }
+                let mut rec = Rec::of(&st);
+                on_call(&rec);
+                match catch_unwind(AssertUnwindSafe(|| self.exec_inner(svc, &st, &mut rec))) {
+                    Ok(true) => {}
+                    Ok(false) => return None,
+                    Err(p) => {
+                        rec.r = "PANIC".into();
+                        rec.ok = 0;
+                        eprintln!("panic in step {st:?}: {}", panic_msg(p));
+                        self.poisoned = true;
+                    }
+                }
+                Some(rec)
+            }
+            pub fn bad_or_99(&self) -> u64 {
+                if self.poisoned { 0 } else { catch_unwind(AssertUnwindSafe(|| self.count_bad())).unwrap_or(99) }
+            }
+            pub fn count(&mut self, rec: &Rec) {
+                *self.counts.entry(format!("{}:{}", rec.a, rec.r)).or_insert(0) += 1;
+            }
+        }
+    };
+}
+side_exec!(ClientSide<S>);
+side_exec!(ServerSide<S>);
+
+impl<S: Service> World<S> {
+    pub fn new(cfg: &Cfg, config: &Config, service_name: &str) -> Result<World<S>, String> {
+        let node = NodeBuilder::new().config(config).create::<S>().map_err(|e| format!("node: {e:?}"))?;
+        let name = ServiceName::new(service_name).map_err(|e| format!("name: {e:?}"))?;
+        let svc = node
+            .service_builder(&name)
+            .request_response::<Msg, Msg>()
+            .max_active_requests_per_client(cfg.ma as usize)
+            .max_loaned_requests(cfg.ml as usize)
+            .max_response_buffer_size(cfg.rb as usize)
+            .max_borrowed_responses_per_pending_response(cfg.mb as usize)
+            .enable_safe_overflow_for_requests(cfg.oq)
+            .enable_safe_overflow_for_responses(cfg.op)
+            .enable_fire_and_forget_requests(cfg.ff)
+            .max_servers(cfg.msv as usize)
+            .max_clients(cfg.mcl as usize)
+            .max_nodes(2)
+            .create()
+            .map_err(|e| format!("service: {e:?}"))?;
+        let mut w = World {
+            cfg: cfg.clone(),
+            _node: node,
+            svc,
+            cs: ClientSide::new(cfg),
+            ss: ServerSide::new(cfg),
+            nreq: 0,
+            nresp: 0,
+        };
+        // parameter extraction (DESIGN.md 3.3): number of chunks of a client / server data segment as
+        // published by the running code in the dynamic config
+        {
+            let c = make_client(&w.svc).map_err(|e| format!("probe client: {e}"))?;
+            let s = make_server(&w.svc, cfg).map_err(|e| format!("probe server: {e}"))?;
+            let (cid, sid) = (c.id(), s.id());
+            let (mut nreq, mut nresp) = (0u64, 0u64);
+            w.svc.dynamic_config().list_clients(|d| {
+                if d.client_id == cid {
+                    nreq = d.number_of_requests as u64;
+                }
+                CallbackProgression::Continue
+            });
+            w.svc.dynamic_config().list_servers(|d| {
+                if d.server_id == sid {
+                    nresp = d.number_of_responses as u64;
+                }
+                CallbackProgression::Continue
+            });
+            w.nreq = nreq;
+            w.nresp = nresp;
+        }
+        Ok(w)
+    }
+
+    pub fn poisoned(&self) -> bool {
+        self.cs.poisoned || self.ss.poisoned
+    }
+
+    // ---- liveness queries used by the generator -------------------------------------------------
+    pub fn live_clients(&self) -> Vec<u64> {
+        self.cs.clients.keys().copied().collect()
+    }
+    pub fn live_servers(&self) -> Vec<u64> {
+        self.ss.servers.keys().copied().collect()
+    }
+    pub fn free_client_slots(&self) -> Vec<u64> {
+        (1..=self.cfg.nc).filter(|c| !self.cs.used_c.contains_key(c)).collect()
+    }
+    pub fn free_server_slots(&self) -> Vec<u64> {
+        (1..=self.cfg.ns).filter(|s| !self.ss.used_s.contains_key(s)).collect()
+    }
+    pub fn reqloan_keys(&self) -> Vec<(u64, u64)> {
+        self.cs.reqloans.keys().copied().collect()
+    }
+    pub fn pend_keys(&self) -> Vec<(u64, u64)> {
+        self.cs.pend.keys().copied().collect()
+    }
+    pub fn held_keys(&self) -> Vec<(u64, u64)> {
+        self.cs.held.iter().map(|(h, r)| (*h, r.c)).collect()
+    }
+    /// (handle, client, server the response came from)
+    pub fn held_from(&self) -> Vec<(u64, u64, u64)> {
+        self.cs.held.iter().map(|(h, r)| (*h, r.c, r.seen.s)).collect()
+    }
+    pub fn areq_keys(&self) -> Vec<(u64, u64, u64)> {
+        self.ss.areq.keys().copied().collect()
+    }
+    pub fn rloan_keys(&self) -> Vec<(u64, u64, u64, u64)> {
+        self.ss.rloans.keys().copied().collect()
+    }
+    pub fn client_is_idle(&self, c: u64) -> bool {
+        self.cs.is_idle(c)
+    }
+    pub fn server_is_idle(&self, s: u64) -> bool {
+        self.ss.is_idle(s)
+    }
+    pub fn areq_has_loans(&self, k: (u64, u64, u64)) -> bool {
+        self.ss.areq_has_loans(k)
+    }
+
+    // ---- execution ------------------------------------------------------------------------------
+    /// Executes one step; returns the record (a = "Skip" if the step refers to objects that do not exist).
+    pub fn exec(&mut self, st: &Step) -> Rec {
+        if self.poisoned() {
+            let mut rec = Rec::of(st);
+            rec.r = "skipped-after-panic".into();
+            rec.a = "Skip".into();
+            return rec;
+        }
+        let r = match side_of(&st.a) {
+            Side::Client => self.cs.exec_step(Some(&self.svc), st, &mut |_| {}),
+            Side::Server => self.ss.exec_step(Some(&self.svc), st, &mut |_| {}),
+            Side::None => None,
+        };
+        let mut rec = match r {
+            Some(rec) => rec,
+            None => {
+                let mut rec = Rec::of(st);
+                rec.a = "Skip".into();
+                rec.r = format!("not-applicable:{}", st.a);
+                rec
+            }
+        };
+        if !self.poisoned() {
+            rec.bad = self.cs.bad_or_99() + self.ss.bad_or_99();
+        }
+        self.cs.count(&rec);
+        rec
+    }
+
+    pub fn counts(&self) -> BTreeMap<String, u64> {
+        let mut m = self.cs.counts.clone();
+        for (k, v) in &self.ss.counts {
+            *m.entry(k.clone()).or_insert(0) += v;
+        }
+        m
+    }
+
     /// Orderly teardown in dependency order (the end-of-run observation is the leftover scan in main).
     pub fn teardown(mut self) -> bool {
-        if self.poisoned {
+        if self.poisoned() {
             // objects may be inconsistent after a panic inside the library: leak them
             std::mem::forget(self);
             return false;
         }
         catch_unwind(AssertUnwindSafe(move || {
-            self.rloans.clear();
-            self.held.clear();
-            self.areq.clear();
-            self.reqloans.clear();
-            self.pend.clear();
-            self.clients.clear();
-            self.servers.clear();
+            self.ss.clear_objects();
+            self.cs.clear();
+            self.ss.servers.clear();
             drop(self);
         }))
         .is_ok()
